@@ -9,7 +9,7 @@ ASSUMPTIONS = ["P is interpreted through its lower triangle (junk is written int
                "norms of 's' parts in the symmetric ('L' storage) interpretation"]
 REQUIRED_COUNTERS = ["optimal.coneqp", "optimal.qp", "kkt.ldl", "kkt.ldl2", "kkt.chol", "kkt.chol2", "kkt.callable",
                      "operators", "no-inequalities", "G-none", "rankP.0", "rankP.deficient", "rankP.full", "junk",
-                     "storage.sparse", "initvals.xsyz"]
+                     "storage.sparse", "initvals.xsyz", "qp.all-zero-sparse-G"]
 
 
 def plan(tier):
